@@ -37,7 +37,7 @@ CHECKS = {
         level_text=('ComparisonDataset::compare equals an independent implementation of Figures 34/35 for every pair of data sets (antisymmetric; transitive on consistent sets); '
                     'calculate_recommended_state equals Figure 33 with the documented deviations for every own data set, Ebest, Erbest and state; '
                     'set_recommended_state equals Tables 30-33 for every prior state, decision code, slave-only/master-only/multiport setting, incl. data set updates.'),
-        level_note=_trust_k + ' The composition over the loops of PtpInstanceState::bmca is a paper step over the three contracts.',
+        level_note=_trust_k + ' The composition over the loops of PtpInstanceState::bmca is machine-checked for two ports against recording stubs of the callees; more ports: paper step (uniform loops).',
     ),
     'C06': dict(
         engine='engine-k', technique='Kani/CBMC: representation invariant of ForeignMasterList + per-operation contracts; qualification rule over all sequence-id pairs; modular call chain take_best -> reregister -> list -> record checked against recording stubs of each callee',
